@@ -164,6 +164,12 @@ class RemoteContext(SupportRemoteGetState):
                         os.kill(child.pid, signal.SIGTERM)
                 except:
                     logger.exception('Exception occurred while killing a remote child:')
+                    # e.g. our own termination request landed in the middle of the call above: the child must not survive us
+                    try:
+                        if child.is_alive():
+                            os.kill(child.pid, signal.SIGTERM)
+                    except Exception:
+                        pass
 
             return True
 
